@@ -458,7 +458,7 @@ func (c *Ctx) c08Fail(fail *ssa.Function) {
 				}
 				cc := call.Common()
 				if cc.IsInvoke() && cc.Method.Name() == "WriteHeader" {
-					if n, isC := ConstInt(Arg(call, 0)); isC {
+					if n, isC := ConstInt(t.Resolve(Arg(call, 0))); isC {
 						outs = append(outs, sprintf("status%d", n))
 					} else {
 						outs = append(outs, "status?")
